@@ -39,7 +39,7 @@ func (logfmtComp) Rule() string {
 
 type lfFile struct {
 	name, renamed, hash string
-	size, ms          int64
+	size, ms            int64
 }
 
 func (f *lfFile) GetName() string    { return f.name }
